@@ -138,7 +138,7 @@ def harnesses(tier):
         hs.append(NoMutate(c03.Sort([k], N), [("data", "recv")]))
         hs.append(NoMutate(c04.Group("aggregate", [k], N), [("data", "recv")], group_exception=True))
         hs.append(NoMutate(c04.Group("modify", [k], N), [("data", "recv")], group_exception=True))
-        for j in (c05.JOINS if not q else ["left_join", "full_join", "semi_join"]):
+        for j in c05.JOINS:
             hs.append(NoMutate(c05.Join(j, [k], 2, 2), [("a", "a"), ("b", "b")]))
         for m in ("sort", "rank", "unique"):
             if k == "O": continue
